@@ -4,10 +4,10 @@ LEVEL = "other"
 
 def check(rep, tier):
     from contracts import rules_exact, core_make, core_rules, containers, rules_numeric, rules_shape
-    core_make.run(rep, tier)
-    core_rules.run(rep, tier, parts=("defvjp",))
-    rules_shape.run(rep, tier)
-    rules_exact.run(rep, tier, rules_exact.CLAUSE_PROPS["C05"])
-    containers.run_ground(rep, tier)
-    containers.run_exact(rep, tier, clauses=('K-structure',))
-    rules_numeric.run(rep, tier, clauses=('N-shape',))
+    rep.run(core_make.run, rep, tier)
+    rep.run(core_rules.run, rep, tier, parts=("defvjp",))
+    rep.run(rules_shape.run, rep, tier)
+    rep.run(rules_exact.run, rep, tier, rules_exact.CLAUSE_PROPS["C05"])
+    rep.run(containers.run_ground, rep, tier)
+    rep.run(containers.run_exact, rep, tier, clauses=('K-structure',))
+    rep.run(rules_numeric.run, rep, tier, clauses=('N-shape',))
